@@ -31,7 +31,7 @@ func (w *world) evidence(fams []family, b *bfs) {
 	r.Set("data_files", len(w.states))
 	var fs []string
 	for _, f := range fams {
-		fs = append(fs, fmt.Sprintf("<=%d lines over the first %d alphabet lines", f.k, f.n))
+		fs = append(fs, f.String())
 	}
 	r.Set("file_families", fs)
 	r.Set("alphabet_source_lines", len(alphabet))
@@ -50,6 +50,7 @@ func (w *world) evidence(fams []family, b *bfs) {
 	r.Set("bfs_new_store_contents_per_depth", b.levels)
 	r.Set("bfs_depth", r.Pick(2, 3))
 	r.Set("walk_applies", cnt.walk)
+	r.Set("serial_skew_applies", cnt.skew)
 	r.Set("full_raw_iterator_dumps", cnt.fullDumps)
 	r.Set("sessions", cnt.sessions)
 	r.Set("session_copies_replaced_after_a_failing_case", cnt.resets)
@@ -77,10 +78,11 @@ func (w *world) evidence(fams []family, b *bfs) {
 		"Faulty transitions (same session) = diff A->B plus one '-' line whose record is absent after the diff (absent key / absent value under a live key / one deletion too many; every preprocessed line of the one-line files plus two strangers) or one malformed line (bad op, unknown record type, op only, unquotable location): at every position when A and B have <=1 source line, else one undeletable and one malformed line after the last valid line (class rotating with the pair); must return an error and leave the exact content (value order included) unchanged. "+
 		"BFS: states are exact store contents (value order included), confined to files made of the 5 lines that can share a key (a1 a2 soa dot soa2; only those can give a value order a fresh compile does not give); contents that differ from every fresh compile are rebuilt by replay and taken through the diff to every other file of that universe in every order, to depth %d. "+
 		"Walks: one physical store taken through every sequence of the <=1-line files, open/apply/close per step, to depth %d. "+
+		"Serial skew: every pure-deletion diff (B sub-multiset of A) applied through rdb.ApplyDiff(file) with a diff file whose mtime (= the serial ApplyDiff derives) differs from the compile serial, as happens in the field; must succeed and give compile(B). "+
 		"states = distinct exact store contents seen (both layouts); transitions = real ApplyDiff executions; evaluations = content comparisons; non-trivial = valid transitions whose diff is non-empty plus faulty ones whose diff has valid lines besides the faulty one",
 		strings.Join(fs, "; "), len(alphabet), maxOrders, maxOrders, r.Pick(2, 3), r.Pick(2, 3)))
 	r.Assume = []string{
-		"both files of a diff are preprocessed with the same serial, and compile and ApplyDiff use that serial ('.' lines take that serial, Z lines carry explicit serials after preprocessing)",
+		"both files of a diff are preprocessed with the same serial, and - except in the serial-skew phase - compile and ApplyDiff use that serial ('.' lines take that serial, Z lines carry explicit serials after preprocessing)",
 		"diffs with more than 4 lines are tried in 24 selected orders, not all n! (a declared bound, like the depth)",
 		"RocksDB itself (cgo) is executed, not modelled; within a session the store is observed through (*RDB).ForEach on the keys of both files and re-installed with (*RDB).Add/Del (verified by reading back), the whole store is dumped with a raw iterator once per session and once per fresh-copy transition",
 		"only the alphabet's record types (+ Z . % !), one subnet map; ApplyDiff exists for RocksDB only",
